@@ -330,6 +330,10 @@ def eq_routes(ctx, cr):
         i = names.index(cont)
         outs = full.get((i, i), set())
         ctx.ob(rule, "%s:%s:reflexive-possible" % (rule, cont), any(v == T for v, m in outs), "no path returns Ok(true)")
+        # sizes must be compared before any element: Ok(false) must be reachable without a single element comparison
+        # (otherwise a container with fewer entries would equal a larger one: subset instead of equality)
+        ctx.ob(rule, "%s:%s:size-compared" % (rule, cont), any(v == F and not m for v, m in outs),
+               "%s == %s never returns false without comparing an element: the sizes are not compared" % (cont, cont), fn=cr.fns[k])
 
 
 def const_named(cr, fkey, name):
